@@ -825,6 +825,49 @@ def _series_wrapper_cases(ctx, reqs, pend):
                     args['hint'] = R(hint)
                 reqs.append(('seriesVolumePositions', args))
                 pend.append((case, obs, False))
+        # every option of the wrapper reaches the core: same answer as get_volume_positions on the extracted positions
+        if kind == 'plain' and nsl >= 3:
+            kw = {}
+            conv = r.choice(CONVS)
+            hand = r.choice(['RIGHT_HANDED', 'LEFT_HANDED'])
+            pick = r.choice(['conv_hand', 'missing', 'duplicate', 'rtol', 'atol', 'unsorted'])
+            dsel = list(dss)
+            if pick == 'conv_hand':
+                kw = {'index_convention': _spell_conv(r, conv), 'handedness': _spell_hand(r, hand)}
+            elif pick == 'missing':
+                dsel = [d for j, d in enumerate(dss) if rank[j] != 1]          # plane 1 is absent
+                kw = {'allow_missing_positions': True}
+                if len(dsel) < 3 or sorted(rank[j] for j, d in enumerate(dss) if rank[j] != 1)[:2] != [0, 2]:
+                    pass
+            elif pick == 'duplicate':
+                dsel = dsel + [copy.deepcopy(dsel[0])]
+                kw = {'allow_duplicate_positions': True}
+            elif pick == 'rtol':
+                kw = {'rtol': 0.05}
+            elif pick == 'atol':
+                kw = {'atol': 0.01 * s}
+            elif pick == 'unsorted':
+                kw = {'sort': False, 'enforce_handedness': r.random() < 0.5}
+            st_w, val_w = _call(sp.get_series_volume_positions, dsel, **kw)
+            st_c, val_c = _call(sp.get_volume_positions, [[float(x) for x in d.ImagePositionPatient] for d in dsel],
+                                [float(x) for x in dsel[0].ImageOrientationPatient], **kw)
+            ctx.case(scenario='series-options-' + pick, outcome=_observe(st_w, val_w)[0])
+            if _observe(st_w, val_w) != _observe(st_c, val_c):
+                ctx.fail(dict(case, options=_plain_opts(kw)), {'what': 'get_series_volume_positions does not pass its options on',
+                                                               'wrapper': _observe(st_w, val_w), 'core': _observe(st_c, val_c)},
+                         site='get_series_volume_positions')
+            # the tolerances of the volume builder reach the core as well: a slice 3 % off is refused by default, accepted with rtol = 10 %
+            if pick in ('rtol', 'atol') and nsl >= 3:
+                jit = [copy.deepcopy(d) for d in dss]
+                j = rank.index(1)
+                p = np.array([float(x) for x in jit[j].ImagePositionPatient]) + 0.03 * s * nvol
+                jit[j].ImagePositionPatient = [float(x) for x in p]
+                st_d, _ = _call(hd.get_volume_from_series, jit)
+                st_r, _ = _call(hd.get_volume_from_series, jit, rtol=0.1)
+                st_a, _ = _call(hd.get_volume_from_series, jit, atol=0.1 * s)
+                if st_d == 'ok' or st_r != 'ok' or st_a != 'ok':
+                    ctx.fail(dict(case, fn='get_volume_from_series'), {'what': 'tolerances of the volume builder', 'default': st_d, 'rtol': st_r, 'atol': st_a},
+                             site='get_volume_from_series')
         # the volume builder refuses series that are not one stack of one series in one frame of reference
         if kind in ('other_series', 'other_for', 'other_spacing', 'other_orientation', 'no_orientation'):
             j = r.randrange(1, nsl)
